@@ -8,7 +8,7 @@ out=/verif/seeded/$id-$n
 cd /verif
 [ -f $out/check-first.log ] || cp $out/check.log $out/check-first.log
 cp evidence/$chk.json /tmp/ev-keep-$chk-$$.json 2>/dev/null
-VERIF_REPO=$wt ./check $chk quick > $out/check.log 2>&1; c=$?
+VERIF_REPO=$wt timeout -k 10 2400 ./check $chk quick > $out/check.log 2>&1; c=$?
 # the evidence file describes /repo, not a seeded tree: put the last one back
 [ -f /tmp/ev-keep-$chk-$$.json ] && mv /tmp/ev-keep-$chk-$$.json evidence/$chk.json
 grep -v "^JOB-RESULT" $out/check.log | grep "violation detail\|^C[0-9][0-9] " | cut -c1-300 | head -4
